@@ -102,9 +102,13 @@ struct Sched {
   volatile int turn = -1;          // task id allowed to run; -1 none
   volatile int alive_mask = 0;
   uint64_t switches = 0;
-  std::vector<int> trace;          // chosen task at each scheduling decision (for replay files)
-  const std::vector<int>* replay = nullptr;
-  size_t replay_pos = 0;
+  // chosen task at each scheduling decision (for replay files); plain arrays: everything the tasks share is touched only
+  // inside functions that ThreadSanitizer does not instrument, so no container code may be called from there
+  static const int TRACE_MAX = 1 << 16;
+  int trace[TRACE_MAX];
+  int ntrace = 0;
+  const int* replay = nullptr;
+  size_t replay_len = 0, replay_pos = 0;
   bool only_op_boundaries = false;
 };
 Sched* scheduler();
